@@ -85,9 +85,11 @@ class ReportLuns(SCSICommand):
             result[:4] = scsi_int_to_ba(len(result) - 8, 4)
             return result
 
-        for l in data["luns"]:
+        for _count, l in enumerate(data["luns"]):
             _r = bytearray(8)
-            encode_dict(l, cls._datain_bits, _r)
+            # unmarshall_datain names the entries lun0, lun1, ...
+            key = "lun%s" % _count
+            encode_dict({"lun": l[key] if key in l else l["lun"]}, cls._datain_bits, _r)
 
             result += _r
         result[:4] = scsi_int_to_ba(len(result) - 8, 4)
